@@ -332,6 +332,10 @@ class World:
                         fn = os.path.join(self.tmp, f"sim{self.nfile}.{via}")
                         sim.to_file(fn, what=what, verb=0)
                         new = emg3d.Simulation.from_file(fn, verb=0)
+                    if not isinstance(new, emg3d.Simulation):
+                        # io.load could not rebuild the Simulation (returns the raw dict + a warning)
+                        raise TypeError(f"{via}: from_dict/from_file returned {type(new).__name__}, "
+                                        "not a Simulation")
                     self.sims.append(new)
                     ret = [3, len(self.sims) - 1, 0, 0]
                 else:
@@ -533,14 +537,6 @@ def gen_history(rng, n, maxlen, nsims_max=3, vias=None):
     return ops
 
 
-def vias_for(layout):
-    """gridding='input': a Simulation saved with to_file cannot be reloaded (from_file returns a plain
-    dict + warning 'Could not de-serialize <simulation>: Mesh must be a TensorMesh', because
-    Simulation.from_dict is handed the still serialised gridding_opts mesh) -- reported in docs/C12.md;
-    file round trips are therefore exercised on the gridding='same' problems only."""
-    return ['copy', 'dict'] if layout >= 2 else None
-
-
 def valid(ops):
     nsims = 1
     for op in ops:
@@ -607,6 +603,12 @@ SUSPECTS = [
     [(0, 'misfit'), (0, 'export', 'copy', 'computed'), (1, 'setmodel', 1, 'computed', 'replace'),
      (1, 'compute'), (0, 'setmodel', 1, 'computed', 'inplace'), (0, 'gradient'),
      (0, 'setmodel', 0, 'computed', 'inplace'), (0, 'gradient')],
+    # file and dict round trips on every problem (incl. gridding='input', whose provided mesh must
+    # survive the round trip), continuing to work with the reloaded simulations
+    [(0, 'gradient'), (0, 'export', 'h5', 'all'), (1, 'jvec', 0), (0, 'export', 'json', 'results'),
+     (2, 'gradient'), (1, 'setmodel', 1, 'computed', 'replace'), (1, 'misfit')],
+    [(0, 'get_efield', 0), (0, 'export', 'npz', 'computed'), (1, 'misfit'), (1, 'export', 'dict', 'plain'),
+     (2, 'jtvec', 1)],
 ]
 
 
@@ -867,7 +869,7 @@ def correspondence(ctx):
         fm = (len(cases) // len(combos)) % 3 == 2
         prob = problem(case, layout)
         cases.append(dict(case=case, layout=layout, file=fm, n=prob.n,
-                          ops=gen_history(rng, prob.n, maxlen, vias=vias_for(layout))))
+                          ops=gen_history(rng, prob.n, maxlen)))
     dis, nsteps, hist, distinct = check_cases(cases, quirks)
     ctx.c12_dis = [dict(d) for d in dis]
     for d in dis:
@@ -876,6 +878,9 @@ def correspondence(ctx):
     hist['file_dir histories'] = sum(1 for c in cases if c['file'])
     hist["gridding='input' histories (computational grid != model grid)"] = sum(
         1 for c in cases if c['layout'] >= 2)
+    hist["file round trips (h5/npz/json) on gridding='input' problems"] = sum(
+        1 for c in cases if c['layout'] >= 2 for o in c['ops']
+        if o[1] == 'export' and o[2] in ('h5', 'npz', 'json'))
     hist['setmodel by replacement'] = sum(1 for c in cases for o in c['ops']
                                           if o[1] == 'setmodel' and len(o) > 4 and o[4] == 'replace')
     hist['setmodel in place'] = sum(1 for c in cases for o in c['ops']
@@ -985,11 +990,12 @@ def search(ctx, broken):
         if f is None:
             continue
         small = shrink(prob, fm, base)
-        sig = signature(small, fm)
+        sig = signature(small, fm) + f" [{case}, gridding={prob.gridding}]"
         if sig in seen:
             continue
         seen.add(sig)
         hits.append({'signature': sig, 'case': case, 'layout': layout, 'file_dir': fm,
+                     'gridding': prob.gridding,
                      'history': [list(o) for o in small], 'history_text': [op_text(o) for o in small],
                      'failure': property_fails(prob, fm, small)})
     if ctx.thorough or not hits:
@@ -999,13 +1005,14 @@ def search(ctx, broken):
             case, layout = COMBOS[t % len(COMBOS)]
             fm = (t // len(COMBOS)) % 3 == 2
             prob = problem(case, layout)
-            ops = gen_history(ctx.rng, prob.n, 8, vias=vias_for(layout))
+            ops = gen_history(ctx.rng, prob.n, 8)
             if property_fails(prob, fm, ops):
                 small = shrink(prob, fm, ops)
-                sig = signature(small, fm)
+                sig = signature(small, fm) + f" [{case}, gridding={prob.gridding}]"
                 if sig not in seen:
                     seen.add(sig)
                     hits.append({'signature': sig, 'case': case, 'layout': layout, 'file_dir': fm,
+                                 'gridding': prob.gridding,
                                  'history': [list(o) for o in small],
                                  'history_text': [op_text(o) for o in small],
                                  'failure': property_fails(prob, fm, small)})
